@@ -1,4 +1,5 @@
 from ._expr_common import run_expr_prop
+from .. import mt_check, coro_check
 
 
 def run(tier, seed, verdict):
@@ -8,4 +9,19 @@ def run(tier, seed, verdict):
                                 "throwable point k=1..N (callable, tracked value copy, leaf connect, allocation) "
                                 "is made to throw in its own run.")
     assume.append("single faults only; allocation failure inside libstdc++ internals is not injected")
+    # heap-allocated detached states (detach_on_cancel) and coroutine frames are object lifetimes too: the cancel-race
+    # harness (LeakSanitizer / ASan at exit) and the task<> plan interpreter (frame + local ledger) are run with this
+    # property's verdict; only process deaths (sanitizer reports) and ledger violations are attributed here
+    res = mt_check.MtResult()
+    n = 3000 if tier == "quick" else 200000
+    a = [["seed=%d" % (seed * 100 + 60 + i), "victim=%d" % v, "mode=detach", "iters=%d" % n] for i, v in enumerate((0, 362))]
+    mt_check.run_mt("C02", "cancelrace", "asan20d", a, verdict, res, timeout=1800, accept=("C02",))
+    cr = coro_check.CoroRun(seed, 12 if tier == "quick" else 100, 40 if tier == "quick" else 100, "asan20d")
+    cr.build()
+    cr.execute({"C02": verdict})
+    c2 = cr.coverage()
+    cov["detach_on_cancel_rounds"] = res.stats.get("rounds_total", 0)
+    cov["coroutine_scenarios"] = c2["evaluations"]
+    cov["coroutine_frames_observed"] = c2["coroutine_frames_observed"]
+    cov["evaluations"] += c2["evaluations"] + res.stats.get("rounds_total", 0)
     return cov, assume, "fault_enumeration"
